@@ -152,6 +152,18 @@ type SignatureVerification struct {
 	VerifyTimestamp   TimestampOption                     `json:"verifyTimestamp,omitempty"`
 }
 
+// clone returns a deep copy of [SignatureVerification]
+func (signatureVerification SignatureVerification) clone() SignatureVerification {
+	cloned := signatureVerification
+	if signatureVerification.Override != nil {
+		cloned.Override = make(map[ValidationType]ValidationAction, len(signatureVerification.Override))
+		for validationType, action := range signatureVerification.Override {
+			cloned.Override[validationType] = action
+		}
+	}
+	return cloned
+}
+
 type errPolicyNotExist struct{}
 
 func (e errPolicyNotExist) Error() string {
